@@ -453,12 +453,24 @@ def _mk(fmt, ntraj, specs, refspec, has_ref, like_ref, t0, export, align_mode, c
     return {"fmt": fmt, "trajs": trajs, "ref": ref, "like_ref": like_ref, "t0": t0, "export": export, "opts": o}
 
 
-st_case = st.builds(
-    _mk, st.sampled_from(["tum", "tum", "euroc", "kitti"]), st.sampled_from([1, 2, 2, 3]), st.lists(st_spec, min_size=3, max_size=3), st_spec, st.booleans(),
-    st.booleans(), st.sampled_from([10.0, 1.5e9]), st.sampled_from(["tum", "tum", "kitti"]), st.sampled_from(["none", "none", "align", "origin"]),
-    st.booleans(), st.sampled_from([-1, -1, 3, 6]), st.booleans(), st.booleans(), st.sampled_from([None, None, 2, 7, 100]),
-    st.sampled_from([None, None, [0.5, 5.0], [0.0, 0.0], [5.0, 20.0], [1.0, 400.0], [3.0, 400.0]]), st.sampled_from([0.0, 0.0, 0.25, -1.5]), st.one_of(st.none(), st_tf),
-    st.sampled_from([None, None, "xy", "xz", "yz"]))
+_CASE_ARGS = dict(
+    fmt=st.sampled_from(["tum", "tum", "euroc", "kitti"]), ntraj=st.sampled_from([1, 2, 2, 3]), specs=st.lists(st_spec, min_size=3, max_size=3),
+    refspec=st_spec, has_ref=st.booleans(), like_ref=st.booleans(), t0=st.sampled_from([10.0, 1.5e9]), export=st.sampled_from(["tum", "tum", "kitti"]),
+    align_mode=st.sampled_from(["none", "none", "align", "origin"]), correct_scale=st.booleans(), n_to_align=st.sampled_from([-1, -1, 3, 6]),
+    sync=st.booleans(), merge=st.booleans(), downsample=st.sampled_from([None, None, 2, 7, 100]),
+    mf=st.sampled_from([None, None, [0.5, 5.0], [0.0, 0.0], [5.0, 20.0], [1.0, 400.0], [3.0, 400.0]]), toff=st.sampled_from([0.0, 0.0, 0.25, -1.5]),
+    tf=st.one_of(st.none(), st_tf), project=st.sampled_from([None, None, "xy", "xz", "yz"]))
+
+
+def make_st_case(**overrides):
+    """the evo_traj case strategy with some option strategies replaced (used by the checks of other properties that
+    observe one processing step through the command line tool)"""
+    args = dict(_CASE_ARGS)
+    args.update(overrides)
+    return st.builds(_mk, **args)
+
+
+st_case = make_st_case()
 
 
 def _nt(case):
